@@ -267,13 +267,13 @@ Definition step (c : cfg) (s : gstate) (e : ev) : gstate :=
   | EvInStop =>
       if negb (g_in s) then s else
       (* delIn: push sessions disposed and forgotten, recording closed, caches
-         cleared; codec info and the merge buffer are NOT reset *)
+         and codec info cleared (fix F-07); the merge buffer is NOT reset *)
       let '(pushes, stay) := partition (fun x => ckind_eqb (c_kind x) KPush) (g_subs s) in
       {| g_next := g_next s; g_next_ts := g_next_ts s; g_next_pat := g_next_pat s;
          g_rtmp_cache := gc_clear (g_rtmp_cache s); g_flv_cache := gc_clear (g_flv_cache s);
          g_ts_cache := gc_clear (g_ts_cache s);
          g_patpmt := None; g_merge := g_merge s; g_merge_size := g_merge_size s;
-         g_video_known := g_video_known s; g_subs := stay; g_gone := g_gone s ++ pushes;
+         g_video_known := false; g_subs := stay; g_gone := g_gone s ++ pushes;
          g_rec_open := false; g_rec := g_rec s; g_in := false |}
   | EvTs boundary => feed_ts c s boundary
   | EvPatPmt =>
